@@ -314,3 +314,5 @@ EXTRA_TEXT = {
 }
 for _p, _t in EXTRA_TEXT.items():
     PROPS[_p]["text"] = PROPS[_p]["text"].rstrip() + " " + _t
+PROPS["C07"]["assumptions"].append("X: the life time of a child's stdin pipe (a handle moved out of the Child and kept open past the wait leaves a hook that reads to end-of-file running for ever: mutant C07_n/m4 passes; deciding it needs the handle tracked like a lock guard)")
+PROPS["C10"]["assumptions"].append("T: `tokio::time::timeout(D, FUT).await`, where it occurs in a verified text, is `if fires(D) { Err(elapsed) } else { Ok(FUT) }` (rule T-ASYNC): the future is dropped before it starts or runs to its end; a future cut half-way is not modelled")
